@@ -68,6 +68,22 @@ class Interp(StmtMixin, ExprMixin, CallMixin, BuiltinMixin, OMapMixin, EngineBas
         if not defn:
             self.res.assumed_used.add("spec:" + name)
 
+    def _entry_contradictory(self):
+        """vacuity guard over the FULL entry assumptions (quantified requires / entry_assume / background included):
+        `unsat` means every obligation of this function would hold vacuously; sat/unknown are both fine"""
+        from .types import BACKGROUND
+
+        if getattr(self, "discovery", False) or getattr(self, "_entry_checked", None) == self.cur_fn:
+            return False
+        self._entry_checked = self.cur_fn  # once per function (paths are explored by replaying from the entry)
+        sol = z3.Solver()
+        sol.set("timeout", 3000)
+        for a in BACKGROUND:
+            sol.add(a)
+        for p_ in self.st.pc:
+            sol.add(p_)
+        return sol.check() == z3.unsat
+
     def extern_handler(self, qual):
         return EXTERN_HANDLERS.get(qual)
 
@@ -228,7 +244,7 @@ class Interp(StmtMixin, ExprMixin, CallMixin, BuiltinMixin, OMapMixin, EngineBas
             self.st.heap.setdefault(k, v)
         entry_alloc = self.st.alloc
         self.top_entry = {"params": params, "alloc": entry_alloc}
-        if not self.feasible():
+        if not self.feasible() or self._entry_contradictory():
             self.oblige("vacuity", False, fdef.node, "precondition is unsatisfiable")
             raise PathEnd()
         outcome, payload = None, None
